@@ -191,7 +191,7 @@ func (e *Exec) staticCall(st *State, instr ssa.Instruction, fn *ssa.Function, cl
 	refs := false
 	for _, a := range args {
 		if a.Typ != nil {
-			switch a.Typ.Underlying().(type) {
+			switch under(a.Typ).(type) {
 			case *types.Pointer, *types.Map, *types.Signature, *types.Interface, *types.Slice, *types.Chan:
 				refs = true
 			}
@@ -426,7 +426,7 @@ func (e *Exec) assumeResultWF(st *State, res Val, t types.Type) {
 		}
 		return
 	}
-	switch t.Underlying().(type) {
+	switch under(t).(type) {
 	case *types.Interface:
 		if len(res.T) == 2 && !isTypeParam(t) {
 			st.assume(app(">=", res.T[0], "0"))
@@ -643,7 +643,7 @@ func (e *Exec) havocAbstract(st *State, kind string, ov Val) {
 		st.assume(tImp(app("select", a, ref), nv))
 		e.setArr(st, "ctx#cancelled", arr(SInt, SBool), app("store", a, ref, nv))
 	case "elems":
-		if slt, ok := ov.Typ.Underlying().(*types.Slice); ok {
+		if slt, ok := under(ov.Typ).(*types.Slice); ok {
 			for _, l := range shape(slt.Elem()) {
 				k := leafKey(elemKey(slt.Elem()), l)
 				srt := arr(SInt, arr(SBV(64), l.Sort))
@@ -699,7 +699,7 @@ func (e *Exec) builtin(st *State, instr ssa.Instruction, b *ssa.Builtin, cc *ssa
 	switch b.Name() {
 	case "len":
 		a := args[0]
-		switch t := cc.Args[0].Type().Underlying().(type) {
+		switch t := under(cc.Args[0].Type()).(type) {
 		case *types.Slice:
 			return Val{T: []string{a.T[2]}, Typ: resType}
 		case *types.Basic:
@@ -715,7 +715,7 @@ func (e *Exec) builtin(st *State, instr ssa.Instruction, b *ssa.Builtin, cc *ssa
 			_ = t
 		}
 	case "cap":
-		if _, ok := cc.Args[0].Type().Underlying().(*types.Slice); ok {
+		if _, ok := under(cc.Args[0].Type()).(*types.Slice); ok {
 			return Val{T: []string{args[0].T[3]}, Typ: resType}
 		}
 	case "append":
@@ -770,7 +770,7 @@ func (e *Exec) builtin(st *State, instr ssa.Instruction, b *ssa.Builtin, cc *ssa
 // the abstract content function so that byte-level equalities survive.
 func (e *Exec) doAppend(st *State, instr ssa.Instruction, cc *ssa.CallCommon, args []Val, resType types.Type) Val {
 	s, t := args[0], args[1]
-	slT := resType.Underlying().(*types.Slice)
+	slT := under(resType).(*types.Slice)
 	var tlen string
 	if isStringType(cc.Args[1].Type()) {
 		tlen = e.strLen(t.T[0])
